@@ -8,7 +8,7 @@ BINARY_POOL = ["+", "*", "-", "/", "pow"]
 
 def nmax(runname, tier):
     if tier == "quick":
-        return {"core_maths": 5, "keep_duplicates": 3}.get(runname, 4)
+        return {"core_maths": 5}.get(runname, 4)
     return {"core_maths": 6, "keep_duplicates": 4}.get(runname, 5)
 
 
@@ -23,11 +23,25 @@ def random_bases(seed, count):
     return out
 
 
-def job_groups(tier, seed, per_lib_sample=None, n_random=None, shipped=SHIPPED, nmax_fn=nmax):
+# corner bases that are always generated (through the ESR_VERIF hook): no parameter / no variable / parameter listed first,
+# and two small bases taken to complexity 6 (deeper nesting than the shipped sets reach in the quick tier)
+FIXED_BASES = [
+    ("verif_fx_xonly", [["x"], ["inv", "exp"], ["+", "*"]], 4),
+    ("verif_fx_aonly", [["a"], ["inv"], ["+", "*", "pow"]], 4),
+    ("verif_fx_swapped", [["a", "x"], ["inv"], ["+", "-"]], 4),
+    ("verif_fx_deep1", [["x", "a"], ["square"], ["/", "pow"]], 6),
+    ("verif_fx_deep2", [["x", "a"], ["inv", "exp"], ["*", "-"]], 5),
+]
+
+
+def job_groups(tier, seed, per_lib_sample=None, n_random=None, shipped=SHIPPED, nmax_fn=nmax, fixed=True):
     """One group per run name (a group runs inside one harness process, groups run in parallel)."""
     groups = []
     for rn in shipped:
         groups.append([{"runname": rn, "n": n, "sample": per_lib_sample} for n in range(1, nmax_fn(rn, tier) + 1)])
+    if fixed:
+        for name, basis, top in FIXED_BASES:
+            groups.append([{"runname": name, "n": n, "basis": basis, "sample": per_lib_sample} for n in range(1, top + 1)])
     if n_random is None:
         n_random = 4 if tier == "quick" else 16
     for name, basis in random_bases(seed, n_random):
